@@ -3,10 +3,18 @@ NOTES = ("Technique family: runtime monitoring and sanitizers. Every check execu
          "stress workloads while an oracle (reference model, history checker, invariant hook, Go race detector / checkptr / ASan) "
          "watches. Verdicts are 'held on the executions observed'; evidence files say what was observed. See DESIGN.md.")
 ENGINES = [
- {"name": "refmodel", "path": "harness/c*/ (E3)", "serves_properties": ["C14"], "kind_free_text": "reference-model monitor with exhaustive-to-depth and seeded random sequence generation; every observable compared after every call"},
+ {"name": "refmodel", "path": "harness/c*/ (E3)", "serves_properties": ["C03","C06","C14"], "kind_free_text": "reference-model monitor with exhaustive-to-depth and seeded random sequence generation; every observable compared after every call"},
 ]
 NOT_CLAIMED = {}
 CHECKS = {
+ "C03": dict(level="exploration", engine="refmodel", ref="DESIGN.md §3 C03",
+   technique="runtime reference-model monitor: executable contract model of kvs.Storage compared call by call with each backend (inmem; Redis on in-process miniredis) over exhaustive-to-depth and random operation sequences",
+   text="All sequences over 39 operation instances to depth 3 (quick) / 4 (thorough) and seeded random sequences of length 30-200 are executed against the in-memory backend and against the Redis backend (miniredis); after every call error class, returned record, version relations (fresh, reported-with-ErrExist, CAS outcome) and ListKeys (as a set) are compared with the contract model, optionally with a full observation (GetMany of all keys + ListKeys) after every step. Held = no divergence on the sequences executed; found and repaired 3 Redis defects.",
+   note="Trusted: the contract model (harness/internal/kvmodel), miniredis as a faithful Redis. Keys with a leading '/', invalid patterns and cancelled contexts are not generated."),
+ "C06": dict(level="exploration", engine="refmodel", ref="DESIGN.md §3 C06",
+   technique="runtime reference-model monitor with a logical clock: inmem under testing/synctest virtual time, Redis under miniredis FastForward; first-toucher matrix + exhaustive-to-depth + random sequences; parked-waiter-then-expiry scenario decided at quiescence / by counted polls",
+   text="Every operation kind is tried as the first (and second) one to touch a key whose expiry has passed, for 5 ways of writing the record, 4 interludes and 3 clock advances; all sequences over 22-23 operation instances incl. clock advances to depth 3/4; random sequences; waiters parked on a live record whose expiry then passes. Each sequence ends with a full observation (Get, GetMany, ListKeys, Create). Time is virtual (no wall clock in the oracle). Held = no divergence; found and repaired the inmem expiry defects.",
+   note="Trusted: the model, synctest virtual time, miniredis TTL handling. The exact expiry instant is never sampled (expiries at half units). Redis records written with an already-past expiry are not generated (miniredis keeps them until FastForward)."),
  "C14": dict(level="exploration", engine="refmodel", ref="DESIGN.md §3 C14",
    technique="runtime reference-model monitor (slice model) over exhaustively enumerated and random call sequences; zeroed-slot invariant hook",
    text="Every call sequence to depth 3-6 from every (read,write)-index start position of capacities 0..4 and seeded random long sequences on capacities 7/64/1000 are executed on the real ring buffer; after every call results, error class, panics, Len, Cap, the untouched ReadN tail and (through a verif hook) zeroing of consumed slots are compared with a slice model. Held = no divergence on the sequences executed.",
